@@ -17,6 +17,10 @@
 (* The script only compares time points, so the driver maps 0..T            *)
 (* monotonically onto uint64 (abstract 0 -> 0 and T -> 2^64-1 in the        *)
 (* "z" maps) and the verdict below is the exact oracle.                     *)
+(* The transaction context has one more coordinate at rule level: from      *)
+(* Alonzo on a transaction carries the is_valid flag.  Native scripts are    *)
+(* phase-1: the rule's verdict does not depend on it (RuleHolds, vf,         *)
+(* FlagIrrelevant below).                                                    *)
 (* Hash(script) = Blake2b-224(0x00 ++ original bytes): the model gives the  *)
 (* CBOR token sequence of every script (Tokens), the driver renders it to   *)
 (* bytes, decodes those bytes with the real decoder and hashes them.        *)
@@ -98,6 +102,34 @@ Dev(sc, cx, D) ==
                   \o (IF "Z" \in D /\ cx.end = 0 /\ Flip(sc, cx, {"Z", "E"}) THEN "z" ELSE "")
          IN IF l = "" THEN "combo" ELSE l
 
+-----------------------------------------------------------------------------
+(* Rule level.  The era's UTXOW rule (UtxoValidateNativeScripts) evaluates   *)
+(* every native script the transaction carries, in the context the           *)
+(* transaction gives: its witnesses and its validity interval.  From Alonzo  *)
+(* on the transaction has one more attribute, the is_valid flag: FALSE says  *)
+(* that its Plutus scripts fail (phase 2), so that only its collateral is    *)
+(* collected.  Native scripts are phase 1: the ledger evaluates them before  *)
+(* it looks at the flag (UTXOW runs them, UTXOS reads is_valid), so a        *)
+(* transaction flagged is_valid = FALSE that carries a failing native script *)
+(* is rejected like an unflagged one.  RuleHolds therefore does not read     *)
+(* isValid, in any era.                                                      *)
+(*   FlagSource(era): where the flag of a transaction of the era comes from  *)
+(*     "envelope"  third element of the transaction's array (Alonzo..Conway) *)
+(*     "block"     a Dijkstra transaction cannot encode is_valid = FALSE     *)
+(*                 itself; it is flagged by its block, whose                 *)
+(*                 invalid_transactions set lists its index                  *)
+(*     "none"      Allegra, Mary: no flag, the transaction is always valid   *)
+RuleEras == {"allegra", "mary", "alonzo", "babbage", "conway", "dijkstra"}
+FlagSource(era) ==
+    CASE era \in {"alonzo", "babbage", "conway"} -> "envelope"
+      [] era = "dijkstra"                        -> "block"
+      [] OTHER                                   -> "none"
+IsValidOf(era) == IF FlagSource(era) = "none" THEN {TRUE} ELSE BOOLEAN
+\* the transactions of the rule-level case space (per script)
+RuleCtx == {[era |-> e, cx |-> cx, isValid |-> b] : e \in RuleEras, cx \in Ctx, b \in BOOLEAN}
+RuleCases == {r \in RuleCtx : r.isValid \in IsValidOf(r.era)}
+RuleHolds(sc, cx, isValid) == Eval(sc, cx)
+
 \* per context: the verdict and the deviation names at Evaluate level and at
 \* rule level (shares evaluations; most contexts are not affected)
 PerCtx(sc, cx) ==
@@ -116,19 +148,30 @@ PerCtx(sc, cx) ==
 ScriptSeq == SetToSeq(Scripts)
 CtxSeq    == SetToSeq(Ctx)
 \* v is the specification's verdict for the pair (the oracle of the replay),
-\* de / dr the deviation names; the runner reads them from TLC's state dump.
-VARIABLES i, j, v, de, dr
-vars == <<i, j, v, de, dr>>
+\* vf the rule's verdict on a transaction flagged is_valid = FALSE (the oracle
+\* of the flagged rule-level cases), de / dr the deviation names; the runner
+\* reads them from TLC's state dump.
+VARIABLES i, j, v, vf, de, dr
+vars == <<i, j, v, vf, de, dr>>
 s == ScriptSeq[i]
 x == CtxSeq[j]
-Init == i \in 1..Len(ScriptSeq) /\ j = 0 /\ v = FALSE /\ de = "-" /\ dr = "-"
+Init == i \in 1..Len(ScriptSeq) /\ j = 0 /\ v = FALSE /\ vf = FALSE /\ de = "-" /\ dr = "-"
 Next == /\ j = 0
         /\ j' \in 1..Len(CtxSeq)
         /\ i' = i
         /\ LET p == PerCtx(s, CtxSeq[j']) IN v' = p[1] /\ de' = p[2] /\ dr' = p[3]
+        /\ vf' = RuleHolds(s, CtxSeq[j'], FALSE)
 
 \* the recorded verdict is the evaluation (ties the dump to Eval)
 Recorded == j > 0 => (v = Eval(s, x))
+
+\* the is_valid flag never changes the rule's verdict: the recorded verdict of
+\* the flagged transaction (vf = RuleHolds(s, x, FALSE) by Next) is the one of
+\* the unflagged transaction, and that is the script's evaluation in the
+\* transaction's context (v, by Recorded)
+FlagIrrelevant ==
+    j > 0 => /\ vf = RuleHolds(s, x, TRUE)
+             /\ vf = v
 
 -----------------------------------------------------------------------------
 (* Meta-properties, evaluated for every (script, context); v = Eval(s, x) by   *)
@@ -216,6 +259,10 @@ ASSUME Bnds \subseteq Time /\ Cardinality(Bnds) >= 3 /\ 0 \in Bnds /\ T \in Bnds
 ASSUME Cardinality({Tokens(sc) : sc \in Scripts}) = Cardinality(Scripts)
 ASSUME Cardinality({Name(sc) : sc \in Scripts}) = Cardinality(Scripts)
 ASSUME \A sc \in Scripts : Depth(sc) <= 3
+ASSUME \A e \in RuleEras : TRUE \in IsValidOf(e)
+ASSUME {r.era : r \in {q \in RuleCases : ~q.isValid}} = {e \in RuleEras : FlagSource(e) # "none"}
+ASSUME ndJsonSerialize("eras.ndjson",
+         SetToSeq({[era |-> e, flag |-> FlagSource(e), is_valid |-> SetToSeq(IsValidOf(e))] : e \in RuleEras}))
 ASSUME ndJsonSerialize("ctx.ndjson", [n \in 1..Len(CtxSeq) |-> CtxRow(CtxSeq[n])])
 ASSUME ndJsonSerialize("cases.ndjson", [n \in 1..Len(ScriptSeq) |-> Row(ScriptSeq[n])])
 =======================================================================
